@@ -149,11 +149,11 @@ def verify_android_safetynet(
 
     # Verify that the leaf certificate was issued to the hostname attest.android.com
     attestation_cert = x509.load_der_x509_certificate(x5c[0])
-    cert_common_name = attestation_cert.subject.get_attributes_for_oid(
+    cert_common_names = attestation_cert.subject.get_attributes_for_oid(
         NameOID.COMMON_NAME,
-    )[0]
+    )
 
-    if cert_common_name.value != "attest.android.com":
+    if len(cert_common_names) < 1 or cert_common_names[0].value != "attest.android.com":
         raise InvalidRegistrationResponse(
             'Certificate common name was not "attest.android.com" (SafetyNet)'
         )
